@@ -31,6 +31,7 @@ type c09Feed struct {
 }
 
 type c09Case struct {
+	Prefill bool `json:"prefill"` // the reused receiver starts as a value the application filled in itself (every field set)
 	Kind     string    `json:"kind"`
 	Src      string    `json:"src"` // bytes | feed | sweep
 	Items    [][]int   `json:"items"`
@@ -117,6 +118,21 @@ func newDepack(kind string) depack {
 	}
 	fatal("depacketizer kind %q", kind)
 	return nil
+}
+
+// fullDepack: a receiver the application built itself with every exported field set (per-packet formats)
+func fullDepack(kind string) depack {
+	switch kind {
+	case "vp8":
+		return &codecs.VP8Packet{X: 1, N: 1, S: 1, PID: 7, I: 1, L: 1, T: 1, K: 1, PictureID: 0x7FFF, TL0PICIDX: 255, TID: 3, Y: 1, KEYIDX: 31, Payload: []byte{9, 9, 9}}
+	case "vp9":
+		return &codecs.VP9Packet{I: true, P: true, L: true, F: true, B: true, E: true, V: true, Z: true, PictureID: 0x7FFF, TID: 7, U: true, SID: 7, D: true,
+			PDiff: []uint8{1, 2, 3}, TL0PICIDX: 255, NS: 3, Y: true, G: true, NG: 2, Width: []uint16{1, 2, 3}, Height: []uint16{4, 5, 6},
+			PGTID: []uint8{1, 2}, PGU: []bool{true, true}, PGPDiff: [][]uint8{{1}, {2, 3}}, Payload: []byte{9, 9, 9}}
+	case "opus":
+		return &codecs.OpusPacket{Payload: []byte{9, 9, 9}}
+	}
+	return newDepack(kind)
 }
 
 func perPacket(kind string) bool {
@@ -270,6 +286,9 @@ func runC09(raw json.RawMessage, w *Writer) {
 	}
 	items := c09Items(c)
 	used := newDepack(c.Kind)
+	if c.Prefill {
+		used = fullDepack(c.Kind)
+	}
 	twin := newDepack(c.Kind)
 	var given [][]byte
 	// a socket-style caller: one receive buffer, refilled for every packet
